@@ -30,7 +30,7 @@ extern unsigned verif_x_bc_calls; extern int verif_x_bc_last_ca; extern int veri
 extern unsigned verif_c_ci; extern unsigned verif_c_chk_calls; extern int verif_c_chk_type0; extern int verif_c_chk_type1;
 extern int verif_c_chk_nonca; extern int verif_c_plc_ci; extern size_t verif_c_chk_last; extern size_t verif_c_chk_first;
 extern size_t verif_c_chk_second;
-extern unsigned verif_c_vfy_calls; extern int verif_c_vfy_bad; extern size_t verif_c_vfy_prev_parent;
+extern unsigned verif_c_vfy_calls; extern int verif_c_vfy_bad; extern size_t verif_c_vfy_prev_parent; extern int verif_c_vfy_second;
 #else
 # define VERIF_LOOP_ASSIGNS(...)
 # define VERIF_LOOP_INVARIANT(...)
